@@ -186,7 +186,7 @@ Print Assumptions C03_rocks_good_reachable.
    counted over have intersecting majorities). The tie to the Go code: every check run replays traces of
    the real cluster through the extracted acceptor (RaftAbs/Acceptor.v, proved sound in
    AcceptorSound.v): an accepted trace is a trace of this protocol. *)
-From ZV Require RaftAbs.Theorems.
+From ZV Require RaftAbs.Theorems RaftAbs.LCChecked.
 Module AM := ZV.RaftAbs.Model. Module AS := ZV.RaftAbs.Safety. Module AL := ZV.RaftAbs.ListFacts.
 Module AI := ZV.RaftAbs.Inv. Module AA := ZV.RaftAbs.Acceptor. Module AT := ZV.RaftAbs.Theorems.
 
@@ -261,6 +261,23 @@ Theorem C03_accepted_trace_inv : forall (cf : AM.config) (log0 : list AM.entry) 
   AA.init_okb cf log0 = true -> AA.run (AM.init cf log0) ls = Some s -> AI.inv1 s /\ AI.inv2 s.
 Proof. exact ZV.RaftAbs.AcceptorSound.accepted_trace_inv. Qed.
 Print Assumptions C03_accepted_trace_inv.
+
+(* Leader completeness with NO assumption on configurations, for every trace the acceptor accepts with its two decidable
+   per-step conditions checked (RaftAbs/LCChecked.v: at every election one of the electors has acknowledged the whole
+   committed log in the term of its last entry; at every commit every leader of a later term has an elector that
+   acknowledged the committed index): every leader of a term after the last committed entry's term holds the committed log *)
+Theorem C03_leader_completeness_lc_checked : forall (cf : AM.config) (log0 : list AM.entry) (ls : list AA.label) s,
+  AA.init_okb cf log0 = true -> AA.run_lc (AM.init cf log0) ls = Some s ->
+  forall (u c : nat) el q, In (u, c, el, q) (AM.leaders s) -> (AM.lastterm (AM.gcommit s) < u)%nat -> AL.prefix (AM.gcommit s) el.
+Proof. exact ZV.RaftAbs.LCChecked.accepted_trace_leader_completeness. Qed.
+Print Assumptions C03_leader_completeness_lc_checked.
+
+Theorem C03_leader_has_committed_lc_checked : forall (cf : AM.config) (log0 : list AM.entry) (ls : list AA.label) s (c : nat),
+  AA.init_okb cf log0 = true -> AA.run_lc (AM.init cf log0) ls = Some s ->
+  AM.rl (AM.nodes s c) = AM.Leader -> (AM.lastterm (AM.gcommit s) < AM.cur (AM.nodes s c))%nat ->
+  AL.prefix (AM.gcommit s) (AM.log (AM.nodes s c)).
+Proof. exact ZV.RaftAbs.LCChecked.accepted_trace_leader_has_committed. Qed.
+Print Assumptions C03_leader_has_committed_lc_checked.
 
 (* ---------- non-vacuity ---------- *)
 Example C03_ex_append_truncates :
